@@ -307,4 +307,92 @@ theorem evalI_sim_step {σ : Sh} {fuel : Nat} (ih : SimSpec σ fuel) :
   · exact SimAt.ite (fun _ => SimAt.pure hR0 rfl) (fun _ => hjp s0 t0 hR0)
   · exact hjp s0 t0 hR0
 
+theorem evalStatements_sim_step {σ : Sh} {fuel : Nat} (ih : SimSpec σ fuel) : ∀ l res s t, StR σ s t →
+    SimAt σ (evalStatements (fuel + 1) l (ren σ res)) (evalStatements (fuel + 1) l res) s t (QO σ) := by
+  intro l res s t hR
+  cases l with
+  | nil =>
+    unfold Grol.E.evalStatements
+    exact SimAt.pure hR rfl
+  | cons stmt rest =>
+    unfold Grol.E.evalStatements
+    try dsimp only
+    split
+    · exact ih.evalStatements _ _ _ _ hR
+    · refine SimAt.bind (ih.evalI _ _ _ hR) ?_
+      rintro _ r s1 t1 hR1 rfl
+      cases r with
+      | ret v k => exact SimAt.pure hR1 rfl
+      | error m => exact SimAt.pure hR1 rfl
+      | _ => all_goals exact ih.evalStatements _ _ _ _ hR1
+
+theorem evalExpressions_sim_step {σ : Sh} {fuel : Nat} (ih : SimSpec σ fuel) : ∀ l acc s t, StR σ s t →
+    SimAt σ (evalExpressions (fuel + 1) l (renL σ acc)) (evalExpressions (fuel + 1) l acc) s t
+      (fun a b => a = renEx σ b) := by
+  intro l acc s t hR
+  cases l with
+  | nil =>
+    unfold Grol.E.evalExpressions
+    refine SimAt.pure hR ?_
+    simp only [renEx, renL_eq, List.map_reverse]
+  | cons e rest =>
+    unfold Grol.E.evalExpressions
+    refine SimAt.bind (ih.evalI _ _ _ hR) ?_
+    rintro _ v s1 t1 hR1 rfl
+    rw [ren_isError]
+    refine SimAt.ite (fun _ => SimAt.pure hR1 rfl) (fun _ => ?_)
+    have := ih.evalExpressions rest (v :: acc) s1 t1 hR1
+    simp only [renL] at this
+    exact this
+
+theorem evalAssignment_sim_step {σ : Sh} {fuel : Nat} (ih : SimSpec σ fuel) : ∀ right op left s t, StR σ s t →
+    SimAt σ (evalAssignment (fuel + 1) (ren σ right) op left) (evalAssignment (fuel + 1) right op left) s t (QO σ) := by
+  intro right op left s t hR
+  unfold Grol.E.evalAssignment
+  rw [ren_isError]
+  refine SimAt.ite (fun _ => SimAt.pure hR rfl) (fun _ => ?_)
+  split
+  · split
+    · exact sim_evalIndexAssignment hR _ (.str _) right
+    · exact SimAt.pure hR rfl
+  · split
+    · refine SimAt.bind (ih.eval _ _ _ hR) ?_
+      rintro _ index s1 t1 hR1 rfl
+      exact sim_evalIndexAssignment hR1 _ index right
+    · exact SimAt.pure hR rfl
+  · split
+    · refine sim_curEnv_bind hR ?_
+      exact sim_createOrSet hR t.cur _ right _
+    · exact SimAt.pure hR rfl
+  · exact SimAt.pure hR rfl
+
+theorem evalIf_sim_step {σ : Sh} {fuel : Nat} (ih : SimSpec σ fuel) : ∀ c cons alt s t, StR σ s t →
+    SimAt σ (evalIf (fuel + 1) c cons alt) (evalIf (fuel + 1) c cons alt) s t (QO σ) := by
+  intro c cons alt s t hR
+  unfold Grol.E.evalIf
+  refine SimAt.bind (ih.evalI _ _ _ hR) ?_
+  rintro _ cv s1 t1 hR1 rfl
+  refine SimAt.bind (sim_valueOf hR1 cv) ?_
+  rintro _ condition s2 t2 hR2 ⟨rfl, _⟩
+  cases condition with
+  | bool b =>
+    cases b with
+    | true => exact ih.evalI _ _ _ hR2
+    | false =>
+      simp only [ren]
+      split
+      · exact SimAt.pure hR2 rfl
+      · exact ih.evalI _ _ _ hR2
+  | _ => all_goals exact SimAt.pure hR2 rfl
+
+theorem evalFor_sim_step {σ : Sh} {fuel : Nat} (ih : SimSpec σ fuel) : ∀ c body s t, StR σ s t →
+    SimAt σ (evalFor (fuel + 1) c body) (evalFor (fuel + 1) c body) s t (QO σ) := by
+  intro c body s t hR
+  unfold Grol.E.evalFor
+  refine SimAt.bind (ih.evalForSpecialForms _ _ _ _ hR) ?_
+  rintro _ r s1 t1 hR1 rfl
+  cases r with
+  | some v => exact SimAt.pure hR1 rfl
+  | none => exact ih.evalForLoop _ _ .null _ _ hR1
+
 end Grol.R
